@@ -53,7 +53,7 @@ class Graph:
         self.params = {}
 
 
-def generate(rng, size="small"):
+def generate(rng, size="small", force_tls=False):
     g = Graph()
     if size == "small":
         nobj = rng.randint(3, 10)
@@ -183,11 +183,14 @@ def generate(rng, size="small"):
     # TLS variables with different visibilities, accessed (GD, IE, TLSDESC) from code that is kept
     # but never executed (freestanding programs have no TLS set up).
     g.tls = []
-    if rng.random() < 0.5:
-        for _ in range(rng.randint(1, 4)):
+    want_tls = rng.random() < 0.5
+    if want_tls or force_tls:
+        for ti in range(rng.randint(3, 6) if force_tls else rng.randint(1, 4)):
             n = Node(len(g.nodes), rng.randrange(nobj), "tls")
             n.name = f"t{n.idx}"
             n.tls_vis = rng.choice(["default", "hidden", "protected"])
+            if force_tls and ti < 3:
+                n.tls_vis = ["default", "hidden", "protected"][ti]
             g.nodes.append(n)
             by_obj[n.obj].append(n.idx)
             g.tls.append(n.idx)
@@ -195,6 +198,11 @@ def generate(rng, size="small"):
         for t in g.tls:
             for u in rng.sample(users, min(len(users), rng.randint(1, 3))):
                 u.edges.append(("tls", (t, rng.choice(["gd", "ie", "desc"]))))
+            if force_tls and users:
+                # every access model from a root (so that it is retained under --gc-sections)
+                roots = [g.nodes[r] for r in g.roots if g.nodes[r].kind == "func"] or users
+                for m in ("gd", "ie", "desc"):
+                    rng.choice(roots).edges.append(("tls", (t, m)))
     g.params.update(p_hidden=p_hidden, shadow_defs=len(g.shadow_defs), shadow_refs=len(g.shadow_refs),
                     tls=len(g.tls))
     g.by_obj = by_obj
